@@ -486,8 +486,19 @@ def bulgarian(ctx, repo):
         ctx.finding('BUL', '%s::scores %s::%s' % (BUL, key, kind), BUL, None, msg, w)
     if not seen:
         ctx.ok('BUL', 'all %d tables complete, within 0..150 and weakly monotone (%d cells)' % (len(scores), n_cells))
-    for msg in tables.bulgarian_clamps(repo):
-        ctx.finding('BUL', '%s::score::clamp orientation' % BUL, BUL, None, msg)
+    try:
+        for msg in tables.bulgarian_clamps(repo):
+            ctx.finding('BUL', '%s::score::clamp orientation' % BUL, BUL, None, msg)
+    except AnalysisError as e_:
+        ctx.info('clamp arms not in the recognised shape (%s); decided by the decision table below' % e_)
+    # decision table of score() over the complete tabulated domain and the marks beyond both ends (the function is folded)
+    dt, n_dt = tables.bulgarian_decision_table(repo)
+    ctx.count('Bulgarian (table, mark) cells folded through score()', n_dt)
+    ctx.floor('Bulgarian decision-table cells', n_dt, 3000)
+    for key_, msg_, w_ in dt:
+        ctx.finding('BUL', '%s::score::decision table %s' % (BUL, key_), BUL, None, msg_, w_)
+    if not dt:
+        ctx.ok('BUL', 'score() equals the table on all %d tabulated marks and is 0 / 150 beyond the worst / best end' % n_dt)
     if not any(f.construct.endswith('clamp orientation') for f in ctx.findings):
         ctx.ok('BUL', 'clamps oriented like the min/max of the tables')
     ctx.extra['exhaustive'] = True
